@@ -93,6 +93,9 @@ def run(pid, tier_, replay=None):
                 enumerate(bp.sim_plans(pid, rng, nsim_cfg))]
     sim_csts = bp.sim_plans(pid, random.Random(seed * 7919 + int(pid[1:])), nsim_cfg)
     scenarios = fixed_scenarios(pid)
+    if pid in ("C06", "C11", "C18"):
+        # at the front: the first third of the scenarios runs with a queue of one place
+        scenarios.extend(bp.backpressure_scenarios(rng, 24 if quick else 300, seed))
     prof = bp.PROFILES[pid]
     for i in range(nrand):
         scenarios.append(bp.random_scenario(rng, "seeded/%d/%d" % (seed, i), prof))
